@@ -84,9 +84,10 @@ def net_symbols(net, parameters):
                     for s in cs.symvar(v):
                         names.append(s.name())
                         count += s.numel()
-    for s in parameters.values():
-        names.append(s.name())
-        count += s.numel()
+    for par in parameters.values():
+        for s in cs.symvar(par):  # a declared parameter may be vector-valued
+            names.append(s.name())
+            count += s.numel()
     return names, count
 
 
@@ -111,7 +112,7 @@ def check_case(case, ctx):
         level = min(max(compact, 0), 2)  # documented: <=0 no aggregation, 1 per variable, >1 x/u/d
         extra = compact not in (0, 1, 2)
         overrides, par_over, parameters, values = c03.make_symbolic(sp, sym, case.get("sympars"))
-        params = [(k, 1) for k in parameters]
+        params = [(k, v.numel()) for k, v in parameters.items()]
         if case.get("init"):
             ctx.label("caller-symbols")
         r = guarded(ctx, "compile", cas.compile_net, sp, sym, compact, more_out, case["opts"], overrides, par_over, parameters or None, None, case.get("init"))
